@@ -125,7 +125,7 @@ PROPS['C07'] = dict(
     assumptions=STD,
 )
 PROPS['C08'] = dict(
-    rules=[_r('ROLES', rk.roles, ALLF, DIRECTED), _r('TR0', rk.tr0, ALLF, DIRECTED), _r('TR1', dp.tr1, DIRECTED), _r('TR2', dp.tr2, DIRECTED), _r('ENTRY-PASS', dp.entry_pass, DIRECTED), _r('CONF', dp.conf_ro, DIRECTED), _r('REV', rm.rev, DIRECTED),
+    rules=[_r('ROLES', rk.roles, ALLF, DIRECTED), _r('TR0', rk.tr0, ALLF, DIRECTED), _r('TR1', dp.tr1, DIRECTED), _r('TR2', dp.tr2, DIRECTED), _r('TR-PAIR', dp.tr_pair, DIRECTED), _r('ENTRY-PASS', dp.entry_pass, DIRECTED), _r('CONF', dp.conf_ro, DIRECTED), _r('REV', rm.rev, DIRECTED),
            _r('ORIENT', re_.orient, DIRECTED), _r('DISC', rk.disc, ALLF, DIRECTED, only=DISC6),
            _r('P1', re_.p1_connect, DIRECTED), _r('P2', re_.p2_disconnect_directed, DIRECTED), _r('P3', re_.p3_isolate, DIRECTED), _r('RM1', re_.rm1_first_match, DIRECTED), _r('ADJ-PRIM', re_.adj_prim, DIRECTED)],
     explanation='Directed flavours: every kernel has a well-formed orientation signature (OUT = iter_out + item, IN = iter_in + reversed item; TR0), every entry point sends the Outbound arm '
@@ -153,7 +153,7 @@ PROPS['C10'] = dict(
 )
 
 PROPS['C17'] = dict(
-    rules=[_r('LK1', rg.g3, SYNC, strict=True), _r('LK2', rg.g2, SYNC, rule='LK2'), _r('LK3', rg.lk3, SYNC), _r('LK4', rg.lk4, SYNC), _r('LK5', rg.lk5, SYNC), _r('IT2', rg.it2, SYNC), _r('IT1', rg.it1, SYNC)],
+    rules=[_r('LK1', rg.g3, SYNC, strict=True), _r('LK2', rg.g2, SYNC, rule='LK2'), _r('LK3', rg.lk3, SYNC), _r('LK4', rg.lk4, SYNC), _r('LK5', rg.lk5, SYNC), _r('LK-TRY', rg.lk_try, SYNC), _r('IT2', rg.it2, SYNC), _r('IT1', rg.it1, SYNC)],
     explanation='Only the lock-discipline clauses are decidable statically: no node lock is acquired while another node-lock guard is held, directly or through any callee (LK1: with '
                 'per-node locks and no lock order this is necessary against ABBA and re-entrant read-behind-writer deadlocks, and with LK2 sufficient for deadlock freedom among gdsl\'s '
                 'own locks); no user callback or iterator step runs under a lock (LK2); no panic-capable call under a write guard (LK3: poisoning); every public mutator is one critical '
